@@ -183,7 +183,7 @@ func runC08(c *Ctx, r *Report, tier string) {
 			if !ok || c.term(fa.X) != "P1" {
 				continue
 			}
-			name := fieldObj(fa.X.Type(), fa.Field).Name()
+			name := fieldVarName(fieldObj(fa.X.Type(), fa.Field))
 			if w, ok := want[name]; ok {
 				got[name] = true
 				r.Check(strings.HasPrefix(c.term(st.Val), w), "SCOPE", fpn, "parseState."+name, c.ipos(st), "← "+w, "parseState."+name+" is "+trunc(c.term(st.Val), 100))
